@@ -1,6 +1,6 @@
 //! C18 — connection setup honours the URL and fails cleanly on bad input.
 
-use super::{scratch_dir, serve_stream, tcp_listener, unix_listener, with_deadline, Contacts, Mode};
+use super::{fence, scratch_dir, serve_stream, tcp_listener, unix_listener, with_deadline, Contacts, FenceTarget, Mode, FENCE};
 use crate::common::{catch, cov, Reporter, Tier};
 use crate::vcore::ber;
 use ldap3::{LdapConn, LdapConnAsync, LdapConnSettings, LdapError, StdStream};
@@ -43,6 +43,8 @@ struct Case {
     timeout_ms: Option<u64>,
     sync_api: bool,
     want: Want,
+    /// entry point: 0 with_settings(&str), 1 new(&str), 2 from_url_with_settings(&Url), 3 from_url(&Url)
+    api: u8,
 }
 
 fn err_kind(e: &LdapError) -> &'static str {
@@ -67,6 +69,7 @@ struct Env {
     open_port: u16,
     closed_port: u16,
     silent_port: u16,
+    fence: Vec<FenceTarget>,
 }
 
 /// outcome of one establishment attempt: Ok(bind worked?) / Err(kind) / panic text
@@ -102,10 +105,18 @@ fn attempt(c: &Case, env: &Env) -> (Result<Result<bool, &'static str>, String>, 
     }
     let url = c.url.clone();
     let sync_api = c.sync_api;
+    let api = c.api;
     let t0 = Instant::now();
     let r = catch(move || {
+        let parsed = if api >= 2 { Some(url::Url::parse(&url).expect("verif-machinery: api 2/3 cases have parsable URLs")) } else { None };
         if sync_api {
-            match LdapConn::with_settings(settings, &url) {
+            let made = match api {
+                0 => LdapConn::with_settings(settings, &url),
+                1 => LdapConn::new(&url),
+                2 => LdapConn::from_url_with_settings(settings, parsed.as_ref().unwrap()),
+                _ => LdapConn::from_url(parsed.as_ref().unwrap()),
+            };
+            match made {
                 Ok(mut conn) => {
                     let b = conn.with_timeout(Duration::from_secs(2)).simple_bind("cn=probe", "pw");
                     Ok(b.map(|r| r.rc == 0).unwrap_or(false))
@@ -115,7 +126,13 @@ fn attempt(c: &Case, env: &Env) -> (Result<Result<bool, &'static str>, String>, 
         } else {
             let rt = tokio::runtime::Builder::new_current_thread().enable_all().build().unwrap();
             rt.block_on(async {
-                match LdapConnAsync::with_settings(settings, &url).await {
+                let made = match api {
+                    0 => LdapConnAsync::with_settings(settings, &url).await,
+                    1 => LdapConnAsync::new(&url).await,
+                    2 => LdapConnAsync::from_url_with_settings(settings, parsed.as_ref().unwrap()).await,
+                    _ => LdapConnAsync::from_url(parsed.as_ref().unwrap()).await,
+                };
+                match made {
                     Ok((conn, mut ldap)) => {
                         tokio::spawn(async move {
                             let _ = conn.drive().await;
@@ -134,7 +151,7 @@ fn attempt(c: &Case, env: &Env) -> (Result<Result<bool, &'static str>, String>, 
 fn judge(rep: &Reporter, c: &Case, env: &Env) {
     let n0 = env.contacts.lock().unwrap().len();
     let c2 = c.clone();
-    let env2 = Env { contacts: env.contacts.clone(), open_port: env.open_port, closed_port: env.closed_port, silent_port: env.silent_port };
+    let env2 = Env { contacts: env.contacts.clone(), open_port: env.open_port, closed_port: env.closed_port, silent_port: env.silent_port, fence: vec![] };
     let replay = json!({"engine":"c18","case":format!("{:?}", c)});
     let out = with_deadline(Duration::from_secs(6), move || attempt(&c2, &env2));
     let (r, secs) = match out {
@@ -144,10 +161,11 @@ fn judge(rep: &Reporter, c: &Case, env: &Env) {
             return;
         }
     };
-    std::thread::sleep(Duration::from_millis(1));
+    // every connection made so far is registered once the fence has passed
+    fence(&env.fence, &env.contacts);
     // the server end of a pre-opened stream registers itself when the case is set up; only
     // listeners the library connected to by itself count as "contacted" for the error cases
-    let all_new: Vec<String> = env.contacts.lock().unwrap()[n0..].iter().map(|x| x.listener.clone()).collect();
+    let all_new: Vec<String> = env.contacts.lock().unwrap()[n0..].iter().filter(|x| !x.bytes.starts_with(FENCE)).map(|x| x.listener.clone()).collect();
     let expects_prestream = matches!(&c.want, Want::OkAt(l) | Want::FailAfterContact(l) if l.starts_with("prestream"));
     let new: Vec<String> = if expects_prestream { all_new.clone() } else { all_new.iter().filter(|l| !l.starts_with("prestream")).cloned().collect() };
     let got = match r {
@@ -204,7 +222,7 @@ fn judge(rep: &Reporter, c: &Case, env: &Env) {
                 // the StartTLS setting; ldap + StartTLS begins with the StartTLS request
                 let t0 = Instant::now();
                 let first: Vec<u8> = loop {
-                    let b: Vec<u8> = env.contacts.lock().unwrap()[n0..].iter().filter(|x| x.listener == *l).flat_map(|x| x.bytes.clone()).collect();
+                    let b: Vec<u8> = env.contacts.lock().unwrap()[n0..].iter().filter(|x| x.listener == *l && !x.bytes.starts_with(FENCE)).flat_map(|x| x.bytes.clone()).collect();
                     if !b.is_empty() || t0.elapsed() > Duration::from_millis(1500) {
                         break b;
                     }
@@ -256,23 +274,43 @@ fn pct_path(p: &str, upper: bool) -> String {
     s
 }
 
-pub fn run(tier: Tier) -> i32 {
-    let rep = Reporter::new("C18", tier);
-    let _ports = super::lock_default_ports();
+struct ShardOut {
+    run: usize,
+    per_kind: std::collections::BTreeMap<&'static str, u64>,
+    default_ports: serde_json::Value,
+    samples: Vec<String>,
+}
+
+fn uses_default_port(c: &Case) -> bool {
+    matches!(&c.want, Want::OkAt(l) | Want::FailAfterContact(l) if l == "tcp:389" || l == "tcp:636")
+}
+
+/// One environment (own listeners, sockets and contact log) runs its share of the cases one
+/// after the other, so that every contact can be attributed; the environments run side by
+/// side. The cases on the fixed default ports all belong to shard 0, which alone binds them.
+fn run_shard(rep: &Reporter, tier: Tier, shard: usize, nshards: usize) -> ShardOut {
+    let _ports = if shard == 0 { Some(super::lock_default_ports()) } else { None };
     let contacts: Contacts = Arc::new(Mutex::new(vec![]));
     // listeners
     let open_port = tcp_listener("127.0.0.1:0", "tcp:open", Mode::Responder, contacts.clone()).expect("ephemeral listener");
     let v6_open = tcp_listener(&format!("[::1]:{}", open_port), "tcp:open", Mode::Responder, contacts.clone()).is_some();
     let silent_port = tcp_listener("127.0.0.1:0", "tcp:silent", Mode::Silent, contacts.clone()).expect("silent listener");
-    let closed_port = {
-        let l = std::net::TcpListener::bind("127.0.0.1:0").unwrap();
-        l.local_addr().unwrap().port()
-    };
-    let p389 = tcp_listener("127.0.0.1:389", "tcp:389", Mode::Responder, contacts.clone()).is_some();
-    let p389v6 = tcp_listener("[::1]:389", "tcp:389", Mode::Responder, contacts.clone()).is_some();
-    let p636 = tcp_listener("127.0.0.1:636", "tcp:636", Mode::Responder, contacts.clone()).is_some();
-    let p636v6 = tcp_listener("[::1]:636", "tcp:636", Mode::Responder, contacts.clone()).is_some();
-    let dir = scratch_dir();
+    // a port nothing listens on: below the ephemeral range (which the environments running side
+    // by side draw their listeners from), verified by a refused connection
+    let closed_port = (0..2000u16)
+        .map(|k| 20011 + (shard as u16) * 2003 + k)
+        .find(|p| {
+            matches!(std::net::TcpStream::connect(("127.0.0.1", *p)), Err(e) if e.kind() == std::io::ErrorKind::ConnectionRefused)
+                && !matches!(std::net::TcpStream::connect(("::1", *p)), Ok(_))
+        })
+        .expect("verif-machinery: no closed port found");
+    let own = shard == 0;
+    let p389 = own && tcp_listener("127.0.0.1:389", "tcp:389", Mode::Responder, contacts.clone()).is_some();
+    let p389v6 = own && tcp_listener("[::1]:389", "tcp:389", Mode::Responder, contacts.clone()).is_some();
+    let p636 = own && tcp_listener("127.0.0.1:636", "tcp:636", Mode::Responder, contacts.clone()).is_some();
+    let p636v6 = own && tcp_listener("[::1]:636", "tcp:636", Mode::Responder, contacts.clone()).is_some();
+    let dir = format!("{}-{}", scratch_dir(), shard);
+    let _ = std::fs::create_dir_all(&dir);
     let sock_plain = format!("{}/ldapi.sock", dir);
     let sock_space = format!("{}/ld api.sock", dir);
     let sock_colon = format!("{}/slapd:389.sock", dir);
@@ -280,7 +318,19 @@ pub fn run(tier: Tier) -> i32 {
     let u2 = unix_listener(&sock_space, "unix:space", Mode::Responder, contacts.clone());
     let u3 = unix_listener(&sock_colon, "unix:colon", Mode::Responder, contacts.clone());
     assert!(u1 && u2 && u3, "verif-machinery: cannot bind Unix listeners under {}", dir);
-    let env = Env { contacts: contacts.clone(), open_port, closed_port, silent_port };
+    let mut fence_targets = vec![FenceTarget::Tcp(format!("127.0.0.1:{}", open_port)), FenceTarget::Tcp(format!("127.0.0.1:{}", silent_port))];
+    if v6_open {
+        fence_targets.push(FenceTarget::Tcp(format!("[::1]:{}", open_port)));
+    }
+    for (up, a) in [(p389, "127.0.0.1:389"), (p389v6, "[::1]:389"), (p636, "127.0.0.1:636"), (p636v6, "[::1]:636")] {
+        if up {
+            fence_targets.push(FenceTarget::Tcp(a.to_string()));
+        }
+    }
+    for p in [&sock_plain, &sock_space, &sock_colon] {
+        fence_targets.push(FenceTarget::Unix(p.clone()));
+    }
+    let env = Env { contacts: contacts.clone(), open_port, closed_port, silent_port, fence: fence_targets };
 
     let mut cases: Vec<Case> = vec![];
     let pres = [Pre::None, Pre::Tcp, Pre::Unix, Pre::Invalid];
@@ -293,12 +343,6 @@ pub fn run(tier: Tier) -> i32 {
                     for pre in pres {
                         for timeout_ms in [None, Some(3000u64), Some(u64::MAX)] {
                             for sync_api in [false, true] {
-                                if tier == Tier::Quick && timeout_ms.is_some() && (pre != Pre::None || sync_api) {
-                                    continue;
-                                }
-                                if timeout_ms == Some(u64::MAX) && tier == Tier::Quick && (starttls || host == "name.invalid") {
-                                    continue;
-                                }
                                 let portnum = match port {
                                     "open" => Some(open_port),
                                     "closed" => Some(closed_port),
@@ -366,8 +410,30 @@ pub fn run(tier: Tier) -> i32 {
                                         }
                                     }
                                 };
-                                cases.push(Case { url, starttls, pre, timeout_ms, sync_api, want });
+                                cases.push(Case { url, starttls, pre, timeout_ms, sync_api, want, api: 0 });
                             }
+                        }
+                    }
+                }
+            }
+        }
+    }
+    // ---- what follows the authority (path, query) and a userinfo part do not matter for setup
+    {
+        let decors: Vec<(&str, &str)> = if tier == Tier::Thorough {
+            vec![("", ""), ("", "/dc=example,dc=com"), ("", "/dc=example,dc=com?cn,sn?sub?(cn=*)"), ("", "/??base"), ("user@", "/"), ("cn=admin:secret@", "/"), ("", "/%2F"), ("", "/?x#frag")]
+        } else {
+            vec![("", ""), ("", "/dc=example,dc=com?cn?sub?(cn=*)"), ("user:pw@", "/")]
+        };
+        for (ui, tail) in decors {
+            for scheme in ["ldap", "ldaps"] {
+                for (host, lname) in [("127.0.0.1", "tcp:open"), ("localhost", "tcp:open")] {
+                    for starttls in [false, true] {
+                        for sync_api in [false, true] {
+                            let tls = scheme == "ldaps" || starttls;
+                            let want = if tls { Want::FailAfterContact(lname.into()) } else { Want::OkAt(lname.into()) };
+                            cases.push(Case { url: format!("{}://{}{}:{}{}", scheme, ui, host, open_port, tail), starttls, pre: Pre::None, timeout_ms: None, sync_api, want, api: 0 });
+                            cases.push(Case { url: format!("{}://{}{}:{}{}", scheme, ui, host, closed_port, tail), starttls, pre: Pre::None, timeout_ms: None, sync_api, want: Want::ConnectError, api: 0 });
                         }
                     }
                 }
@@ -406,7 +472,7 @@ pub fn run(tier: Tier) -> i32 {
                                     Pre::Tcp | Pre::TcpSilent | Pre::Invalid => Want::Mismatched,
                                 }
                             };
-                            cases.push(Case { url: format!("{}://{}/", scheme, p), starttls, pre, timeout_ms, sync_api, want });
+                            cases.push(Case { url: format!("{}://{}/", scheme, p), starttls, pre, timeout_ms, sync_api, want, api: 0 });
                         }
                     }
                 }
@@ -415,8 +481,8 @@ pub fn run(tier: Tier) -> i32 {
     }
     // the documented short form for a pre-opened Unix stream
     for sync_api in [false, true] {
-        cases.push(Case { url: "ldapi:///".into(), starttls: false, pre: Pre::Unix, timeout_ms: None, sync_api, want: Want::OkAt("prestream-unix".into()) });
-        cases.push(Case { url: "ldapi:///".into(), starttls: false, pre: Pre::None, timeout_ms: None, sync_api, want: Want::EmptyUnixPath });
+        cases.push(Case { url: "ldapi:///".into(), starttls: false, pre: Pre::Unix, timeout_ms: None, sync_api, want: Want::OkAt("prestream-unix".into()), api: 0 });
+        cases.push(Case { url: "ldapi:///".into(), starttls: false, pre: Pre::None, timeout_ms: None, sync_api, want: Want::EmptyUnixPath, api: 0 });
     }
     // ---- unknown schemes and unparsable strings
     for sync_api in [false, true] {
@@ -432,7 +498,7 @@ pub fn run(tier: Tier) -> i32 {
                 ("127.0.0.1".to_string(), Want::ParseError),
                 ("ldap//localhost".to_string(), Want::ParseError),
             ] {
-                cases.push(Case { url: u, starttls: false, pre, timeout_ms: None, sync_api, want: w });
+                cases.push(Case { url: u, starttls: false, pre, timeout_ms: None, sync_api, want: w, api: 0 });
             }
         }
     }
@@ -440,7 +506,7 @@ pub fn run(tier: Tier) -> i32 {
     for sync_api in [false, true] {
         for (scheme, starttls) in [("ldap", true), ("ldaps", false), ("ldaps", true)] {
             for ms in [300u64, 700] {
-                cases.push(Case { url: format!("{}://127.0.0.1:{}/", scheme, silent_port), starttls, pre: Pre::None, timeout_ms: Some(ms), sync_api, want: Want::Timeout });
+                cases.push(Case { url: format!("{}://127.0.0.1:{}/", scheme, silent_port), starttls, pre: Pre::None, timeout_ms: Some(ms), sync_api, want: Want::Timeout, api: 0 });
             }
         }
     }
@@ -449,25 +515,98 @@ pub fn run(tier: Tier) -> i32 {
     for sync_api in [false, true] {
         for (scheme, starttls) in [("ldap", true), ("ldaps", false), ("ldaps", true)] {
             for ms in [300u64, 700] {
-                cases.push(Case { url: format!("{}://127.0.0.1:{}/", scheme, closed_port), starttls, pre: Pre::TcpSilent, timeout_ms: Some(ms), sync_api, want: Want::Timeout });
+                cases.push(Case { url: format!("{}://127.0.0.1:{}/", scheme, closed_port), starttls, pre: Pre::TcpSilent, timeout_ms: Some(ms), sync_api, want: Want::Timeout, api: 0 });
             }
         }
     }
-    let total = cases.len();
-    // run sequentially so that contacts can be attributed (timeout cases overlap nothing else)
+    // the other entry points: new(&str) / from_url(&Url) (default settings only) and
+    // from_url_with_settings(&Url) take the same decisions
+    let mut more = vec![];
+    let (mut kd, mut kn) = (0usize, 0usize);
+    for c in cases.iter() {
+        // (counted separately so that every environment derives the same variants)
+        let k = if uses_default_port(c) {
+            kd += 1;
+            kd - 1
+        } else {
+            kn += 1;
+            kn - 1
+        };
+        let parsable = url::Url::parse(&c.url).is_ok();
+        let defaults = !c.starttls && c.pre == Pre::None && c.timeout_ms.is_none();
+        if defaults {
+            more.push(Case { api: 1, ..c.clone() });
+            if parsable {
+                more.push(Case { api: 3, ..c.clone() });
+            }
+        }
+        let _ = k;
+        if parsable && c.want != Want::Timeout {
+            more.push(Case { api: 2, ..c.clone() });
+        }
+    }
+    cases.extend(more);
+    // this environment's share
+    let mut j = 0usize;
+    let mine: Vec<Case> = cases
+        .into_iter()
+        .filter(|c| {
+            if uses_default_port(c) {
+                shard == 0
+            } else {
+                j += 1;
+                (j - 1) % nshards == shard
+            }
+        })
+        .collect();
     let mut per_kind: std::collections::BTreeMap<&'static str, u64> = Default::default();
-    for c in &cases {
+    let t_sh = Instant::now();
+    for c in &mine {
         *per_kind.entry(want_kind(&c.want)).or_insert(0) += 1;
-        judge(&rep, c, &env);
+        let t1 = Instant::now();
+        judge(rep, c, &env);
+        if std::env::var("VERIF_C18_TIMES").is_ok() && t1.elapsed().as_millis() > 300 {
+            eprintln!("slow case ({} ms, shard {}): {:?}", t1.elapsed().as_millis(), shard, c);
+        }
+    }
+    if std::env::var("VERIF_C18_TIMES").is_ok() {
+        eprintln!("shard {}: {} cases in {:.1}s", shard, mine.len(), t_sh.elapsed().as_secs_f64());
     }
     let _ = std::fs::remove_dir_all(&dir);
+    ShardOut {
+        run: mine.len(),
+        per_kind,
+        default_ports: json!({"127.0.0.1:389": p389, "[::1]:389": p389v6, "127.0.0.1:636": p636, "[::1]:636": p636v6, "[::1]:open": v6_open}),
+        samples: vec![format!("{:?}", mine[mine.len() / 3]), format!("{:?}", mine[mine.len() - 1])],
+    }
+}
+
+pub fn run(tier: Tier) -> i32 {
+    // (a one-certificate trust store: building a TLS connector against the system store takes
+    // about 0.4 s per attempt; no case here completes a handshake)
+    std::env::set_var("SSL_CERT_FILE", "/verif/build/pki/ca.pem");
+    std::env::set_var("SSL_CERT_DIR", "/verif/build/pki/empty");
+    let rep = Reporter::new("C18", tier);
+    let nshards = 6usize;
+    let outs: Vec<ShardOut> = std::thread::scope(|sc| {
+        let hs: Vec<_> = (0..nshards).map(|k| { let rep = &rep; sc.spawn(move || run_shard(rep, tier, k, nshards)) }).collect();
+        hs.into_iter().map(|h| h.join().expect("shard")).collect()
+    });
+    let total: usize = outs.iter().map(|o| o.run).sum();
+    let mut per_kind: std::collections::BTreeMap<&'static str, u64> = Default::default();
+    for o in &outs {
+        for (k, v) in &o.per_kind {
+            *per_kind.entry(k).or_insert(0) += v;
+        }
+    }
     let c = cov(vec![
         ("evaluations", json!(total)),
         ("distinct_nontrivial", json!(total)),
-        ("rule", json!("product of scheme {ldap, ldaps, LDAP, LdapS} x host {absent, localhost, 127.0.0.1, [::1], name.invalid} x port {absent, open, closed} x StartTLS x pre-opened stream {none, TCP, Unix, Invalid} x conn_timeout x {LdapConnAsync, LdapConn}; ldapi paths {live (upper/lower-case percent-encoding), with space, with an encoded colon, nonexistent, empty, with :389, with :x} x the same settings; unknown schemes and unparsable strings; silent-server timeout cases, also over a pre-opened TCP stream; for TLS-against-cleartext cases the first octets the peer received (TLS record for ldaps, StartTLS request for ldap+StartTLS). Each case is a distinct (URL, settings, API) triple; the reference function predicts which loopback listener is contacted and the error class")),
+        ("rule", json!("product of scheme {ldap, ldaps, LDAP, LdapS} x host {absent, localhost, 127.0.0.1, [::1], name.invalid} x port {absent, open, closed} x StartTLS x pre-opened stream {none, TCP, Unix, Invalid} x conn_timeout x {LdapConnAsync, LdapConn} x entry point {with_settings, new, from_url, from_url_with_settings}; ldapi paths {live (upper/lower-case percent-encoding), with space, with an encoded colon, nonexistent, empty, with :389, with :x} x the same settings; unknown schemes and unparsable strings; URLs with userinfo, path and query parts; silent-server timeout cases, also over a pre-opened TCP stream; for TLS-against-cleartext cases the first octets the peer received (TLS record for ldaps, StartTLS request for ldap+StartTLS). Each case is a distinct (URL, settings, API) triple; the reference function predicts which loopback listener is contacted and the error class")),
         ("cases_by_expected_outcome", json!(per_kind)),
-        ("default_port_listeners", json!({"127.0.0.1:389": p389, "[::1]:389": p389v6, "127.0.0.1:636": p636, "[::1]:636": p636v6, "[::1]:open": v6_open})),
-        ("samples", json!([format!("{:?}", cases[17]), format!("{:?}", cases[cases.len() - 1])])),
+        ("default_port_listeners", outs[0].default_ports.clone()),
+        ("environments_run_side_by_side", json!(nshards)),
+        ("samples", json!(outs.iter().flat_map(|o| o.samples.clone()).take(4).collect::<Vec<_>>())),
         ("exhaustive", json!(true)),
     ]);
     let _ = ber::hex(&[]);
